@@ -29,7 +29,7 @@ for p in props:
     })
 man = {
     'version': 1,
-    'setup_cmd': 'python3 translator/gen.py /repo lean/DsdVerif/Gen >/dev/null && cd lean && lake build',
+    'setup_cmd': '/venv/bin/python translator/gen.py /repo lean/DsdVerif/Gen >/dev/null && cd lean && lake build',
     'hooks': {'guard': 'DSDOBJECTS_VERIF', 'enable': 'no source hooks are needed: every observation uses the public API (DESIGN.md 2.7)',
               'baseline_off_cmd': 'cd /repo && /venv/bin/python -m pytest -ra -q -p no:cacheprovider --timeout=900 --continue-on-collection-errors',
               'source_commits': [], 'add_only': True},
